@@ -142,7 +142,8 @@ def replay(rec: Dict[str, Any]) -> List[Tuple[str, Dict[str, Any], str]]:
     import jsonpath
 
     feats = "compound" if rec.get("family") == "compound" else "+".join(sorted(expr_features(rec["q"])))
-    docs = rec["_docs"]
+    # (a document that is a string cannot be handed over as a value - the API reads a str argument as JSON text - it has its own forms in C11)
+    docs = [d for d in rec["_docs"] if d["doc"].get("t") != "str"]
     ctx_t = rec.get("_ctx")
     texts = c10.texts_of(rec)
     env = jsonpath.JSONPathEnvironment()
@@ -216,9 +217,46 @@ def replay(rec: Dict[str, Any]) -> List[Tuple[str, Dict[str, Any], str]]:
                     return False
                 return super().is_truthy(obj)
 
+        def raising() -> Any:
+            # an environment whose functions are the caller's own and raise built-in errors on some arguments (a lookup table,
+            # a positional read): whatever escapes the synchronous evaluation escapes the asynchronous one
+            from jsonpath.function_extensions import ExpressionType, FilterFunction
+
+            class Table(FilterFunction):
+                arg_types = [ExpressionType.VALUE]
+                return_type = ExpressionType.VALUE
+
+                def __call__(self, v: Any) -> Any:
+                    return {1: 1, 2: 0, "a": 2, None: 3}[v]          # KeyError / TypeError (unhashable) otherwise
+
+            class Nth(FilterFunction):
+                arg_types = [ExpressionType.NODES]
+                return_type = ExpressionType.VALUE
+
+                def __call__(self, nodes: Any) -> Any:
+                    return [10, 20][len(nodes)]                      # IndexError from two nodes on
+
+            class First(FilterFunction):
+                arg_types = [ExpressionType.NODES]
+                return_type = ExpressionType.VALUE
+
+                def __call__(self, nodes: Any) -> Any:
+                    return nodes[0].obj                              # IndexError on an empty node list
+
+            class Known(FilterFunction):
+                arg_types = [ExpressionType.VALUE, ExpressionType.VALUE]
+                return_type = ExpressionType.LOGICAL
+
+                def __call__(self, s: Any, _p: Any) -> Any:
+                    return {"a": True, "ab": False, "b": True}[s]   # KeyError / TypeError otherwise
+
+            e = _jp.JSONPathEnvironment()
+            e.function_extensions.update({"length": Table(), "count": Nth(), "value": First(), "match": Known(), "search": Known()})
+            return e
+
         doc0 = untag(docs[0]["doc"])
         kw = {"filter_context": untag(ctx_t)} if ctx_t else {}
-        for ename, mk_env in (("is_truthy-hook", Hooked), ("reconfigured", _jp.JSONPathEnvironment)):
+        for ename, mk_env in (("is_truthy-hook", Hooked), ("reconfigured", _jp.JSONPathEnvironment), ("functions-that-raise", raising)):
             try:
                 henv = mk_env()
                 if ename == "reconfigured":
@@ -229,18 +267,20 @@ def replay(rec: Dict[str, Any]) -> List[Tuple[str, Dict[str, Any], str]]:
                     henv.max_int_index, henv.min_int_index = 0, 0
             except BaseException:  # noqa: BLE001
                 continue
-            s_kind, s_vals = observe(lambda: [m.obj for m in henv.finditer(text, doc0, **kw)])
-            for name, fn in (("env.findall_async", lambda: drive(henv.findall_async(text, doc0, **kw))),
-                             ("env.finditer_async", lambda: [m.obj for m in drive(collect(henv.finditer_async(text, doc0, **kw)))])):
-                a_kind, a_vals = observe(fn)
-                disc = ""
-                if a_kind != s_kind:
-                    disc = f"sync-{s_kind.split(':')[0]}-async-{a_kind.split(':')[0]}" if s_kind[:3] != a_kind[:3] or "ok" in (s_kind, a_kind) else "different-error-kind"
-                elif s_kind == "ok" and (len(a_vals) != len(s_vals) or any(not same_obj(x, y) for x, y in zip(a_vals, s_vals))):
-                    disc = "different-values"
-                if disc:
-                    return [(f"{name}:{disc}|{ename}|{feats}", {"query": text, "doc": show(docs[0]["doc"]), "environment": ename, "sync": s_kind, "async": a_kind,
-                             "tagged": c10.strip(rec)}, disc)]
+            for di in (range(len(docs)) if ename == "functions-that-raise" else (0,)):        # (every document: somewhere a function meets what it cannot handle)
+                docn = untag(docs[di]["doc"])
+                s_kind, s_vals = observe(lambda: [m.obj for m in henv.finditer(text, docn, **kw)])
+                for name, fn in (("env.findall_async", lambda: drive(henv.findall_async(text, docn, **kw))),
+                                 ("env.finditer_async", lambda: [m.obj for m in drive(collect(henv.finditer_async(text, docn, **kw)))])):
+                    a_kind, a_vals = observe(fn)
+                    disc = ""
+                    if a_kind != s_kind:
+                        disc = f"sync-{s_kind.split(':')[0]}-async-{a_kind.split(':')[0]}" if s_kind[:3] != a_kind[:3] or "ok" in (s_kind, a_kind) else "different-error-kind"
+                    elif s_kind == "ok" and (len(a_vals) != len(s_vals) or any(not same_obj(x, y) for x, y in zip(a_vals, s_vals))):
+                        disc = "different-values"
+                    if disc:
+                        return [(f"{name}:{disc}|{ename}|{feats}", {"query": text, "doc": show(docs[di]["doc"]), "environment": ename, "sync": s_kind, "async": a_kind,
+                                 "tagged": c10.strip(rec)}, disc)]
         # a file-like document that the caller closes once the call has returned: the sync call has read it by then, and so has the async one
         if isinstance(untag(docs[0]["doc"]), (list, dict)):
             import io
